@@ -316,8 +316,43 @@ def narrowread(run, fx, rule='NARROWREAD'):
         run.held(rule, 'table fields stored at full width', '', '%d stores of be::read / be::peek results, none into a narrower integer' % total)
 
 
+def nextinrange(run, fx):
+    """the cmap iterators that fill the cached cmap (CmapSubtable4/12NextCodepoint) answer `the successor of c in the same
+    range` only when the range really contains it: `return c + 1` is dominated by a test `end > c` (strict).  With `>=` the
+    iterator reports end+1 under this range's key, the cached table stores glyph 0 for the first code point of an abutting
+    range, and the cached and direct lookups disagree."""
+    from . import linear
+    n = 0
+    for q in ('graphite2::TtfUtil::CmapSubtable4NextCodepoint', 'graphite2::TtfUtil::CmapSubtable12NextCodepoint'):
+        fn = fx.one(q)
+        for _, e in fn.elements():
+            if e['k'] != 'ReturnStmt' or not e.get('c'):
+                continue
+            terms, c0 = linear.lin(fn, e['c'][0], through_unsigned=True)
+            if c0 != 1 or len(terms) != 1 or list(terms.values()) != [1]:
+                continue
+            x = list(terms)[0]
+            n += 1
+            inst = '%s: return %s + 1 @%s' % (q.split('::')[-1], x, e['ln'])
+            strict, weak = [], []
+            for cond, pol in dom.edge_guards(fn, fn.block_of[e['i']]):
+                for a, p in dom.atoms(fn, cond, pol):
+                    for t, c in linear.lower_bounds(fn, a, p):
+                        if t.get(x) == -1 and len(t) == 2 and sorted(t.values()) == [-1, 1]:
+                            (strict if c <= -1 else weak).append(fn.render(fn.strip(a)))
+            if strict:
+                run.held('CMAPBOUND', inst, fn.loc(e), 'dominated by `%s`: the successor is still inside the range whose key is reported' % strict[0])
+            else:
+                run.violated('CMAPBOUND', inst, fn.loc(e), '%s returns %s + 1 as the next code point of the current range without a dominating strict test that the range '
+                             'end exceeds %s (found: %s): it reports end+1 under this range\'s key, so the cached cmap (filled through this iterator) maps the first '
+                             'code point of an abutting range to glyph 0 while the direct lookup finds it' % (q, x, x, weak[:1] or 'none'))
+    if n < 2:
+        run.broken('CMAPBOUND', 'cmap iterators', 'expected a `return c + 1` in each of the two NextCodepoint iterators, found %d' % n, '')
+
+
 def run(run):
     fx = run.facts('Q0')
+    nextinrange(run, fx)
     selectors(run, fx)
     planeroute(run, fx)
     fallback(run, fx)
